@@ -70,19 +70,25 @@ namespace libchess {
             abort();
     }
 
-    if (can_castle(Side::White, MoveType::ksc) && (to == squares::H1 || from == squares::E1 || from == squares::H1)) {
+    const auto king_moved = piece == Piece::King;
+
+    if (can_castle(Side::White, MoveType::ksc) &&
+        ((king_moved && us == Side::White) || from == castle_rooks_from_[0] || to == castle_rooks_from_[0])) {
         new_hash ^= zobrist::castling_key(usKSC);
     }
 
-    if (can_castle(Side::White, MoveType::qsc) && (to == squares::A1 || from == squares::E1 || from == squares::A1)) {
+    if (can_castle(Side::White, MoveType::qsc) &&
+        ((king_moved && us == Side::White) || from == castle_rooks_from_[1] || to == castle_rooks_from_[1])) {
         new_hash ^= zobrist::castling_key(usQSC);
     }
 
-    if (can_castle(Side::Black, MoveType::ksc) && (to == squares::H8 || from == squares::E8 || from == squares::H8)) {
+    if (can_castle(Side::Black, MoveType::ksc) &&
+        ((king_moved && us == Side::Black) || from == castle_rooks_from_[2] || to == castle_rooks_from_[2])) {
         new_hash ^= zobrist::castling_key(themKSC);
     }
 
-    if (can_castle(Side::Black, MoveType::qsc) && (to == squares::A8 || from == squares::E8 || from == squares::A8)) {
+    if (can_castle(Side::Black, MoveType::qsc) &&
+        ((king_moved && us == Side::Black) || from == castle_rooks_from_[3] || to == castle_rooks_from_[3])) {
         new_hash ^= zobrist::castling_key(themQSC);
     }
 
